@@ -40,9 +40,13 @@ def dup(x, how):
     return pickle.loads(pickle.dumps(x, protocol=int(how[1])))
 
 
-def check_value(ctx, label, x, observe, mutate=None):
-    """observe(x) -> comparable full observable state; mutate(copy) changes the copy only."""
+def check_value(ctx, label, x, observe, mutate=None, must_mutate=False):
+    """observe(x) -> comparable full observable state; mutate(copy) changes the copy only.
+
+    must_mutate: the mutation is one the original accepts (checked on the original at the end), so a copy that refuses
+    it is not a usable, independent value."""
     base = observe(x)
+    refused = []
     for how in HOW:
         o = outcome(dup, x, how)
         if o[0] != "ok":
@@ -55,11 +59,21 @@ def check_value(ctx, label, x, observe, mutate=None):
         if mutate is not None:
             try:
                 mutate(y)
-            except Exception:  # noqa: BLE001 - some values cannot be mutated in this way
+            except Exception as e:  # noqa: BLE001 - some values cannot be mutated in this way
+                refused.append((how, f"{type(e).__name__}: {e}"[:160]))
                 continue
             if observe(x) != base:
                 ctx.violation(what="copy not independent", type=label, how=how, observed=str(observe(x))[:300], required=str(base)[:300])
         ctx.count("type", label)
+    if must_mutate and refused:
+        try:
+            mutate(x)
+            legal = True
+        except Exception:  # noqa: BLE001
+            legal = False
+        if legal:
+            ctx.violation(what="the copy refuses an operation the original accepts", type=label, how=refused[0][0], observed=refused[0][1],
+                          required="a copy usable exactly like the original")
     ctx.case((label, str(base)[:200]))
 
 
@@ -79,14 +93,24 @@ def run(ctx):
     for t in ticks:
         check_value(ctx, "TimeDelta", bt.TimeDelta.from_ticks(t), lambda v: ("TimeDelta", v.ticks))
         check_value(ctx, "DateTime", bt.DateTime.from_ticks(t), lambda v: ("DateTime", v.ticks))
-    for n in (0, 1, 5):
-        vals = [rng.choice(ticks) for _ in range(n)]
-        check_value(ctx, "TimeDeltaArray", bt.TimeDeltaArray([bt.TimeDelta.from_ticks(t) for t in vals]),
-                    lambda a: [x.ticks for x in a] + [a._array.tobytes()],
-                    (lambda a: a.append(bt.TimeDelta.from_ticks(1))))
-        check_value(ctx, "DateTimeArray", bt.DateTimeArray([bt.DateTime.from_ticks(t) for t in vals]),
-                    lambda a: [x.ticks for x in a] + [a._array.tobytes()],
-                    (lambda a: a.append(bt.DateTime.from_ticks(1))))
+    def arr_mut(mk):
+        def m(a):
+            # in-place writes first (they need writable storage), then structural changes
+            if len(a):
+                a[0] = mk(7)
+                a[0:1] = [mk(9)]
+                a[-1] = mk(11)
+            a.append(mk(1))
+            a.insert(0, mk(2))
+            del a[0]
+        return m
+    for n in (0, 1, 2, 5):
+        for _rep in range(1 if ctx.quick else 20):
+            vals = [rng.choice(ticks) for _ in range(n)]
+            check_value(ctx, "TimeDeltaArray", bt.TimeDeltaArray([bt.TimeDelta.from_ticks(t) for t in vals]),
+                        lambda a: [x.ticks for x in a] + [a._array.tobytes()], arr_mut(bt.TimeDelta.from_ticks), must_mutate=True)
+            check_value(ctx, "DateTimeArray", bt.DateTimeArray([bt.DateTime.from_ticks(t) for t in vals]),
+                        lambda a: [x.ticks for x in a] + [a._array.tobytes()], arr_mut(bt.DateTime.from_ticks), must_mutate=True)
     # ---- Timing -------------------------------------------------------------------------------------------
     u = dt.timezone.utc
     fam = {"dt": (dt.datetime(2024, 1, 1, tzinfo=u), dt.timedelta(seconds=1)),
@@ -158,8 +182,9 @@ def run(ctx):
         k, o = world.objs[name]
         if kind == "digital" and rng.random() < 0.7:
             _ = [s.name for s in o.signals]       # populate the name cache
-            if rng.random() < 0.5:
-                o.signals[0].name = "n0"
+            if rng.random() < 0.6:
+                # names as a user may type them: padded, or containing the separator
+                o.signals[rng.randrange(o.signal_count)].name = rng.choice(["n0", " clk ", "d0,d1", "x ", "\tq", "a, b"])
 
         def wobs(x, k=k):
             extra = ()
